@@ -40,6 +40,40 @@ EXTRA = [
             "Query": {"type": "object", "properties": {"current": {"$ref": "#/components/schemas/DataSource"}, "legacy": {"$ref": "#/components/schemas/Datasource"}}},
             "DataSource": {"type": "object", "properties": {"uid": {"type": "string"}}},
             "Datasource": {"type": "object", "properties": {"name": {"type": "string"}}}}}})),
+    # a reference to the WHOLE document ("$ref": "#"), with the root an object and with the root itself a $ref to a definition;
+    # also a $ref into "$defs" and a reference nested three collections deep
+    ("jsonschema", "document-self-reference-root-object", json.dumps({
+        "$schema": "http://json-schema.org/draft-07/schema#", "type": "object",
+        "properties": {"name": {"type": "string"}, "parent": {"$ref": "#"}, "children": {"type": "array", "items": {"$ref": "#"}}}})),
+    ("jsonschema", "document-self-reference-root-ref", json.dumps({
+        "$schema": "http://json-schema.org/draft-07/schema#", "$ref": "#/definitions/Node",
+        "definitions": {
+            "Node": {"type": "object", "properties": {"name": {"type": "string"}, "doc": {"$ref": "#"}, "byName": {"type": "object", "additionalProperties": {"$ref": "#"}},
+                                                     "leaf": {"$ref": "#/definitions/Leaf"}}},
+            "Leaf": {"type": "object", "properties": {"up": {"$ref": "#"}, "deep": {"type": "array", "items": {"type": "object", "additionalProperties": {"type": "array", "items": {"$ref": "#/definitions/Leaf"}}}}}}}})),
+    ("jsonschema", "dollar-defs", json.dumps({
+        "$schema": "https://json-schema.org/draft/2020-12/schema", "$ref": "#/$defs/Root",
+        "$defs": {"Root": {"type": "object", "properties": {"leaf": {"$ref": "#/$defs/Leaf"}}}, "Leaf": {"type": "object", "properties": {"v": {"type": "string"}}}}})),
+    # the configuration route of allowed_objects (codegen.InputBase.filterSchema): object NAMES of the input's package, exact
+    # spelling, also when a name contains dots (legal OpenAPI component names); 4th element = the lists to restrict with
+    ("openapi", "allowed-dotted-names", json.dumps({
+        "openapi": "3.0.0", "info": {"title": "t", "version": "1"}, "paths": {},
+        "components": {"schemas": {
+            "models.User": {"type": "object", "properties": {"address": {"$ref": "#/components/schemas/models.Address"}, "name": {"type": "string"}}},
+            "models.Address": {"type": "object", "properties": {"street": {"type": "string"}}},
+            "io.k8s.Pod": {"type": "object", "properties": {"owner": {"$ref": "#/components/schemas/models.User"}}},
+            "Other": {"type": "object", "properties": {"id": {"type": "string"}}},
+            "User": {"type": "object", "properties": {"legacy": {"type": "boolean"}}}}}}),
+     [["models.User"], ["models.Address", "Other"], ["io.k8s.Pod"], ["User"], ["Other"]]),
+    ("jsonschema", "allowed-plain-names", json.dumps({
+        "$schema": "http://json-schema.org/draft-07/schema#", "$ref": "#/definitions/Root",
+        "definitions": {
+            "Root": {"type": "object", "properties": {"next": {"$ref": "#/definitions/Root"}, "leaf": {"$ref": "#/definitions/Leaf"}}},
+            "Leaf": {"type": "object", "properties": {"k": {"$ref": "#/definitions/Kind"}}},
+            "Kind": {"type": "string", "enum": ["x", "y"]},
+            "leaf": {"type": "object", "properties": {"lower": {"type": "string"}}},
+            "Unused": {"type": "object", "properties": {"u": {"type": "string"}}}}}),
+     [["Leaf"], ["leaf"], ["Kind", "Unused"], ["Root"]]),
     # a forced envelope turns the root's regular fields into fields of the envelope object: references to a SIBLING field
     # (not a definition) must still name a declared object
     ("cue", "envelope-sibling-field-references", "package %(pkg)s\n\nlimits: {\n\tmax: int64\n}\ncurrent: limits\nlist: [...limits]\nbyName: [string]: limits\n#Def: {\n\tl: limits\n}\nd: #Def\n"),
@@ -77,17 +111,30 @@ def run_parsers(ctx):
             y = os.path.join(d, pkg + ".yaml")
             open(y, "w").write(sc.pipeline_yaml(fmt, path, pkg, {}))
             jobs.append({"id": sid, "fmt": fmt, "yaml": y, "tag": "%s/%s" % (cat[sid]["leaf"], cat[sid]["pos"])})
-    for n, (fmt, tag, text) in enumerate(EXTRA):
+    restricted = {}          # index of a restricted job -> (index of the unrestricted job, pkg, allowed names)
+    for n, extra in enumerate(EXTRA):
+        fmt, tag, text = extra[:3]
         pkg = "x%03d%s" % (n, fmt[0])
         path = _write_input(d, pkg, fmt, text % {"pkg": pkg} if fmt == "cue" else text)
         y = os.path.join(d, pkg + ".yaml")
         ytext = sc.pipeline_yaml(fmt, path, pkg, {})
+        for k, allowed in enumerate(extra[3] if len(extra) > 3 else []):
+            ya = os.path.join(d, "%s_allowed%d.yaml" % (pkg, k))
+            yt = ytext.replace("      package: %s\n" % pkg, "      package: %s\n      allowed_objects: %s\n" % (pkg, json.dumps(allowed)), 1)
+            if "allowed_objects" not in yt:
+                raise core.Inconclusive("could not set allowed_objects in the pipeline of %s" % tag)
+            open(ya, "w").write(yt)
+            restricted[len(jobs) + 1 + k] = (len(jobs), pkg, allowed)
+        nallowed = len(extra[3]) if len(extra) > 3 else 0
         if tag.startswith("envelope-"):
             ytext = ytext.replace("      package: %s\n" % pkg, "      package: %s\n      forced_envelope: Envelope\n" % pkg, 1)
             if "forced_envelope" not in ytext:
                 raise core.Inconclusive("could not set forced_envelope in the pipeline of %s" % tag)
         open(y, "w").write(ytext)
         jobs.append({"id": 90000 + n, "fmt": fmt, "yaml": y, "tag": "extra/" + tag})
+        for k in range(nallowed):
+            jobs.append({"id": 91000 + 10 * n + k, "fmt": fmt, "yaml": os.path.join(d, "%s_allowed%d.yaml" % (pkg, k)),
+                         "tag": "extra/%s/allowed=%s" % (tag, "+".join(extra[3][k]))})
     jf = os.path.join(d, "jobs.ndjson")
     open(jf, "w").write("".join(json.dumps(j) + "\n" for j in jobs))
     trace = os.path.join(d, "trace.ndjson")
@@ -95,14 +142,29 @@ def run_parsers(ctx):
     recs = [json.loads(x) for x in open(trace)]
     if len(recs) != len(jobs):
         raise core.Inconclusive("c05-parse returned %d records for %d jobs" % (len(recs), len(jobs)))
+    # restricted parses carry the list and the unrestricted parse of the same document (ParsersTrace: Allowed clause)
+    n_restricted = 0
+    for i, r in enumerate(recs):
+        r["allowed"], r["full"] = [], []
+        if i in restricted:
+            j, pkg, allowed = restricted[i]
+            if recs[j]["err"]:
+                continue
+            r["allowed"] = [{"pkg": pkg, "obj": a} for a in allowed]
+            r["full"] = recs[j]["post"]
+            n_restricted += 0 if r["err"] else 1
+    if restricted and not n_restricted:
+        raise core.Inconclusive("no restricted parse (allowed_objects) returned an IR")
+    open(trace, "w").write("".join(json.dumps(r) + "\n" for r in recs))
     tr = ctx.run_tlc("ParsersTrace", "ParsersTrace.cfg", workers=1, timeout=1800, files={"trace.ndjson": trace})
     consumed = [int(m.group(1)) for m in re.finditer(r'<<"CONSUMED", (\d+)>>', open(tr["out"], errors="replace").read())]
     if not consumed or consumed[-1] != len(recs):
         raise core.Inconclusive("ParsersTrace consumed %s of %d" % (consumed, len(recs)))
     fails = []
     for f in core.tagged_lines(tr["out"], "FAIL"):
-        fails.append({"rec": recs[f["l"] - 1], "dangling": sorted(f["dangling"]), "shape": sorted(f["shape"])})
+        rec = {k: v for k, v in recs[f["l"] - 1].items() if k != "full"}
+        fails.append({"rec": rec, "dangling": sorted(f["dangling"]), "shape": sorted(f["shape"]) + sorted(f.get("allowed", []))})
     parsed = sum(1 for r in recs if not r["err"])
     with_refs = sum(1 for r in recs if not r["err"] and '"k": "ref"' in json.dumps(r["post"]))
-    return {"fails": fails, "tlc": [tr], "records": len(recs), "parsed": parsed, "with_refs": with_refs, "not_expressible": skipped,
+    return {"fails": fails, "tlc": [tr], "records": len(recs), "parsed": parsed, "with_refs": with_refs, "not_expressible": skipped, "restricted_parses": n_restricted,
             "errors": [{"id": r["id"], "fmt": r["fmt"], "error": r["error"][:160]} for r in recs if r["err"]][:5]}
